@@ -76,7 +76,7 @@ pub open spec fn rem(st: PState) -> int { st.toks.len() - st.pos }
 pub open spec fn wf(st: PState) -> bool {
     &&& st.pos <= st.toks.len()
     &&& st.toks == st.inp.kind@
-    &&& st.toks.len() + 8 <= usize::MAX
+    &&& st.toks.len() <= 0x7fff_ffff          // global bound: one token per input byte at most (DESIGN §7)
     &&& forall|i: int| 0 <= i < st.toks.len() ==> #[trigger] st.toks[i] != SyntaxKind::EOF
 }
 
@@ -86,7 +86,7 @@ impl crate::input::Input {
     }
     pub open spec fn wf(&self) -> bool {
         &&& self.joint@.len() == (self.kind@.len() + 63) / 64
-        &&& self.kind@.len() + 8 <= usize::MAX
+        &&& self.kind@.len() <= 0x7fff_ffff
     }
 }
 pub open spec fn is_error_event(e: Event) -> bool { e is Error }
@@ -115,3 +115,7 @@ pub open spec fn mono(a: Parser, b: Parser) -> bool {
 pub open spec fn unmoved(a: Parser, b: Parser) -> bool {
     b.wf() && b.inp == a.inp && b.pos == a.pos && (a.has_err() ==> b.has_err())
 }
+/// the cursor moved forward by at least one raw token (=> the remaining input strictly decreased)
+pub open spec fn adv(a: Parser, b: Parser) -> bool { b.pos > a.pos }
+/// neither at the end of input nor at a closing brace: the states in which a statement must consume
+pub open spec fn live(st: PState) -> bool { cur(st) != SyntaxKind::EOF && cur(st) != SyntaxKind::R_CURLY }
